@@ -31,6 +31,7 @@ def dispatch (j : Json) : R (Json × Json) := do
   | "symlink" => runSymlink j
   | "copy" => runCopy j
   | "deepchain" => pure (Json.null, Json.null)     -- closed-form expectation, evaluated by the harness (see f_deepchain.py)
+  | "unires" => pure (Json.null, Json.null)        -- model-free clauses over all of Unicode, judged by the harness (see f_unires.py)
   | f => throw s!"unknown family {f}"
 
 def handle (line : String) : String :=
